@@ -8,6 +8,7 @@ import (
 	"bytes"
 	"fmt"
 	"math/rand"
+	"strings"
 	"sync"
 	"sync/atomic"
 	"time"
@@ -236,6 +237,85 @@ func (w *world) quorumCommit(g int64, forX bool, variant int64, seed int64) *typ
 	return types.NewCommit(g, round, id, sigs)
 }
 
+// replicatedCommit: right size, height, round and block id, but every filled slot carries the same
+// byzantine validator's single valid precommit for the block (X, or the canonical one): signature and
+// timestamp copied, the address either the byzantine validator's or the slot owner's.  The byzantine
+// validator holds less than 1/3.  Unfilled slots are absent, or carry the honest validators' genuine
+// round-0 nil precommits where round 0 of g failed.
+func (w *world) replicatedCommit(g int64, forX bool, op string, seed int64) *types.Commit {
+	rec := w.rec(g)
+	vals := rec.StateBefore.Validators
+	r := rand.New(rand.NewSource(seed))
+	var total int64
+	var fIdx []int
+	small := -1
+	for i, v := range vals.Validators {
+		total += v.VotingPower
+		if w.F[string(v.Address)] {
+			fIdx = append(fIdx, i)
+		}
+		if small < 0 || v.VotingPower < vals.Validators[small].VotingPower {
+			small = i
+		}
+	}
+	byz := small
+	if len(fIdx) > 0 {
+		byz = fIdx[r.Intn(len(fIdx))]
+	}
+	pb := vals.Validators[byz].VotingPower
+	id := rec.BlockID
+	if forX {
+		id = blockIDOf(w.wrongTxsBlock(g))
+	}
+	if 3*pb >= total { // no validator below 1/3 in this set: fall back to a plain minority commit
+		return w.liarCommit(vals, g, id, nil)
+	}
+	round := rec.Commit.Round
+	voters, failed := w.failed[g]
+	useNil := failed && r.Intn(2) == 0
+	if useNil {
+		round = 0
+	}
+	base := w.c.SignVote(vals, byz, tmproto.PrecommitType, g, round, id, w.c.VoteTime(g, byz)).CommitSig()
+	fill := map[int]bool{byz: true}
+	if strings.HasPrefix(op, "all") {
+		for i := range vals.Validators {
+			fill[i] = true
+		}
+	} else {
+		// just enough to exceed 2/3 whether a naive tally adds the byzantine validator's power per copy
+		// or the power of each slot's owner
+		copies, owners := int64(1), pb
+		for _, i := range r.Perm(vals.Size()) {
+			if 3*copies*pb > 2*total && 3*owners > 2*total {
+				break
+			}
+			if !fill[i] {
+				fill[i] = true
+				copies++
+				owners += vals.Validators[i].VotingPower
+			}
+		}
+	}
+	sigs := make([]types.CommitSig, vals.Size())
+	for i, v := range vals.Validators {
+		switch {
+		case fill[i]:
+			cs := types.CommitSig{BlockIDFlag: types.BlockIDFlagCommit, ValidatorAddress: append([]byte(nil), base.ValidatorAddress...),
+				Timestamp: base.Timestamp, Signature: append([]byte(nil), base.Signature...)}
+			if strings.HasSuffix(op, "ownerAddr") {
+				cs.ValidatorAddress = append([]byte(nil), v.Address...)
+			}
+			sigs[i] = cs
+		case useNil && !voters[i] && !w.F[string(v.Address)]:
+			sigs[i] = w.c.SignVote(vals, i, tmproto.PrecommitType, g, 0, types.BlockID{}, w.c.VoteTime(g, i)).CommitSig()
+		default:
+			sigs[i] = types.NewCommitSigAbsent()
+		}
+	}
+	return types.NewCommit(g, round, id, sigs)
+}
+
 func blockIDOf(b *types.Block) types.BlockID {
 	return types.BlockID{Hash: b.Hash(), PartSetHeader: b.MakePartSet(types.BlockPartSizeBytes).Header()}
 }
@@ -281,6 +361,10 @@ func (w *world) build(p *PeerSpec, h int64) (blk *types.Block, noBlock, silent b
 		return w.wrongTxsBlock(h), false, false
 	case "nilBackedFork":
 		return withLastCommit(w.rec(h).Block, w.round0Commit(h-1, blockIDOf(w.wrongTxsBlock(h-1)), b.Arg)), false, false
+	case "replicatedFork":
+		return withLastCommit(w.rec(h).Block, w.replicatedCommit(h-1, true, b.Op, b.Arg)), false, false
+	case "replicatedWeak":
+		return withLastCommit(w.rec(h).Block, w.replicatedCommit(h-1, false, b.Op, b.Arg)), false, false
 	case "quorumFork":
 		return withLastCommit(w.rec(h).Block, w.quorumCommit(h-1, true, b.Arg, int64(b.Slot))), false, false
 	case "quorumWeak":
